@@ -1060,7 +1060,45 @@ func c11member(p *Program, r *Report) {
 			if _, ok := ref.(*ssa.DebugRef); ok {
 				continue
 			}
+			if cc, isCall := ref.(*ssa.Call); isCall && isBuiltin(&cc.Call, "len") {
+				continue // a size hint
+			}
 			n++
+			// the other accepted idiom (hand-written variant v20): every element's VALUE is entered as a key into a map made
+			// here, and membership is a lookup in that map
+			if ia, isIA := ref.(*ssa.IndexAddr); isIA && fullRangeInduction(ia.Index, func(v ssa.Value) bool { return v == ssa.Value(set) }) != nil {
+				var m ssa.Value
+				for _, u1 := range *ia.Referrers() {
+					ld, ok := u1.(*ssa.UnOp)
+					if !ok || ld.Op != token.MUL {
+						continue
+					}
+					for _, u2 := range *ld.Referrers() {
+						dv, ok := u2.(*ssa.UnOp)
+						if !ok || dv.Op != token.MUL {
+							continue
+						}
+						for _, u3 := range *dv.Referrers() {
+							if mu, ok := u3.(*ssa.MapUpdate); ok && mu.Key == ssa.Value(dv) {
+								if _, isMk := mu.Map.(*ssa.MakeMap); isMk {
+									m = mu.Map
+								}
+							}
+						}
+					}
+				}
+				looked := false
+				if m != nil {
+					for _, u := range *m.Referrers() {
+						if lk, ok := u.(*ssa.Lookup); ok && lk.X == m {
+							looked = true
+						}
+					}
+				}
+				r.Add("C11.member", FnName(fn), "membership in the chosen set is decided by a lookup in a map keyed by the value of every element of the set", ref.Pos(), m != nil && looked,
+					"the whole set is ranged over, each hash value is a key of a map made in the builder, and the map is queried")
+				continue
+			}
 			c, ok := ref.(*ssa.Call)
 			if !ok || c.Call.StaticCallee() == nil || !p.InRepo(c.Call.StaticCallee()) {
 				r.Undecided("C11.member", FnName(fn), "membership in the chosen set is decided by an equality scan of the set", ref.Pos(), "the set is used by "+ref.String()+", not handed to a scan function")
